@@ -445,7 +445,14 @@ class Check:
         self.assumptions = []
         self._distinct = set()
         self.known, self.fixed = load_known()
-        os.makedirs(os.path.join(EVID, "replays", pid), exist_ok=True)
+        rd = os.path.join(EVID, "replays", pid)
+        if os.path.isdir(rd):                      # replays describe this run only
+            for fn in os.listdir(rd):
+                try:
+                    os.unlink(os.path.join(rd, fn))
+                except OSError:
+                    pass
+        os.makedirs(rd, exist_ok=True)
 
     @property
     def quick(self):
